@@ -116,6 +116,9 @@ func podNameFor(shape string, i int) string {
 		return fmt.Sprintf("other-%d", i)
 	case "S-i-j":
 		return fmt.Sprintf("web-%d-0", i)
+	case "S-0i":
+		// a numeral that is not the canonical form of its value: no ordinal i has the pod name S-0i
+		return fmt.Sprintf("web-0%d", i)
 	}
 	panic(shape)
 }
@@ -255,7 +258,7 @@ func ownPodCells() []ownPod {
 	var out []ownPod
 	for _, owner := range []string{"", "none", "otheruid", "otherkind", "noncontroller"} {
 		for _, nomatch := range []bool{false, true} {
-			for _, shape := range []string{"S-i", "S-x", "other-i", "S-i-j"} {
+			for _, shape := range []string{"S-i", "S-x", "other-i", "S-i-j", "S-0i"} {
 				for _, term := range []bool{false, true} {
 					out = append(out, ownPod{Present: true, Owner: owner, NoMatch: nomatch, Shape: shape, Term: term})
 				}
@@ -367,7 +370,7 @@ func ownCheck(prop string, apis, policies []string, paused bool, differential bo
 	if prop == "C10" {
 		depth = 2
 	}
-	rep.Rule = fmt.Sprintf("ownership snapshot enumeration: set web (r=3, %v, RU p=0) plus a second set with the same selector; (P) pods at 3 ordinals, up to %d of them replaced by any cell of owner{this,none,other UID,other kind,non-controller ref} x labels{match,no match} x name{S-i,S-x,other-i,S-i-j} x terminating, also without the pod-name label, in another namespace, and re-created behind the cache (API copy with another UID), or absent; (R) full product of three revision slots (data T1=the set's template, T2, T3) each absent or owner{this,none,other UID,other kind,built-in StatefulSet of the same name} x labels{selector,upgrade marker,both}, x revisionHistoryLimit{0,1,10} x pod-label pinning (none / one live pod / one terminating pod at another revision / all pods at another revision) x revision numbering (descending with age / all equal / reversed, i.e. a rollback pending); x API copy of the set %v; paused=%v. One real reconcile per snapshot. %s Non-trivial = at least one write or an error.", policies, depth, apis, paused, ruleText)
+	rep.Rule = fmt.Sprintf("ownership snapshot enumeration: set web (r=3, %v, RU p=0) plus a second set with the same selector; (P) pods at 3 ordinals, up to %d of them replaced by any cell of owner{this,none,other UID,other kind,non-controller ref} x labels{match,no match} x name{S-i,S-x,other-i,S-i-j,S-0i (leading zero)} x terminating, also without the pod-name label, in another namespace, and re-created behind the cache (API copy with another UID), or absent; (R) full product of three revision slots (data T1=the set's template, T2, T3) each absent or owner{this,none,other UID,other kind,built-in StatefulSet of the same name} x labels{selector,upgrade marker,both}, x revisionHistoryLimit{0,1,10} x pod-label pinning (none / one live pod / one terminating pod at another revision / all pods at another revision) x revision numbering (descending with age / all equal / reversed, i.e. a rollback pending); x API copy of the set %v; paused=%v. One real reconcile per snapshot. %s Non-trivial = at least one write or an error.", policies, depth, apis, paused, ruleText)
 	rep.Assumptions = apiAssumptions
 	deadline := explore.Deadline(100*time.Second, 15*time.Minute)
 	judge := monitorOf(prop)
